@@ -64,8 +64,8 @@ def main():
                 failures.append({"what": "intpow(n) != intpow(n - 1) * x", "input": {"p": p, "x": [x.a, x.b], "n": big}})
 
     # --- protocol runs ----------------------------------------------------------------------------------------------
-    for fmt_name in FORMATS if thorough else ["id_metadata"]:
-        for _ in range(runs):
+    for fmt_name in FORMATS:
+        for _ in range(runs if (thorough or fmt_name == "id_metadata") else 1):
             cases += 1
             alg = BonehExactAlgorithm(fmt_name, FORMATS)
             sk = alg.generate_secret_key()
@@ -99,6 +99,37 @@ def main():
                     if bad != 0:
                         failures.append({"what": f"value with another profile scored {bad}", "input": {"value": value.hex(),
                                                                                                       "other": other.hex()}})
+    # --- range proofs: accepted for a range containing the value, rejected for one that does not - in any order of checks ---------
+    from ipv8.attestation.wallet.pengbaorange.algorithm import PengBaoRangeAlgorithm
+    from ipv8.attestation.wallet.pengbaorange.structs import PengBaoAttestation
+
+    def range_round(alg, sk, prover_att, verifier_att):
+        agg = alg.create_certainty_aggregate(verifier_att)
+        for ch in alg.create_challenges(verifier_att.PK, verifier_att):
+            agg = alg.process_challenge_response(agg, ch, alg.create_challenge_response(sk, prover_att, ch))
+        return alg.certainty(b"\x01", agg)
+
+    for _ in range(3 if thorough else 1):
+        cases += 1
+        lo = rnd.randint(1, 60)
+        hi = lo + rnd.randint(20, 150)
+        value = rnd.randint(lo, min(hi, 255))
+        other_lo = value + rnd.randint(1, 5)              # a range that does NOT contain the value
+        fmts = {"in": {"algorithm": "pengbaorange", "key_size": 32, "min": lo, "max": hi},
+                "out": {"algorithm": "pengbaorange", "key_size": 32, "min": other_lo, "max": max(hi, other_lo + 10)}}
+        pk, sk = generate_keypair(32)
+        alg_in, alg_out = PengBaoRangeAlgorithm("in", fmts), PengBaoRangeAlgorithm("out", fmts)
+        blob = alg_in.attest(pk, bytes([value]))
+        prover_att = PengBaoAttestation.unserialize_private(sk, blob, "in")
+        for order in (("in", "out"), ("out", "in")):
+            verifier_att = PengBaoAttestation.unserialize(prover_att.serialize(), "in")       # ONE object, checked twice
+            for name in order:
+                score = range_round(alg_in if name == "in" else alg_out, sk, prover_att, verifier_att)
+                want = 1.0 if name == "in" else 0.0
+                if score != want:
+                    failures.append({"what": f"range proof for {value} checked against {fmts[name]['min']}..{fmts[name]['max']} "
+                                             f"scored {score}, expected {want}", "input": {"order": list(order), "value": value,
+                                                                                            "sk": sk.serialize().hex()}})
     print(json.dumps({"ok": not failures, "cases": cases, "failures": failures[:10]}, default=str))
     return 0 if not failures else 1
 
